@@ -99,7 +99,7 @@ PROPS = {
         "lean": "Originium.Props.C05",
         "suites": ["key", "wm", "db"],
         "skeleton_funcs": DB_SKEL,
-        "trusted_base": DB_TB + ["the watermark enters through its published values (C13): the model's `mark v` step accepts any value C13 allows, arbitrarily late"],
+        "trusted_base": DB_TB + ["extract/gotrans.go (the Go-to-Lean translator, DESIGN section 14): regenerates GenTxn.readTs (oracle.readTs), GenTxn.get (Txn.Get) and GenTxn.discard (Txn.Discard) from /repo on every run; calls with outside effects are an ordered event list; TxnTie is part of this property's module", "the watermark enters through its published values (C13): the model's `mark v` step accepts any value C13 allows, arbitrarily late"],
         "assumptions": ["Begin is two steps (timestamp + wait for commitMark), Commit three steps under writeLock; finer interleavings inside one lock region are not distinguished"],
         "explanation": "coupling invariant SInv between the abstract oracle (commit atomic at commitStart) and the storage (batch applied later), proved for every step; storeRead_eq_spec",
     },
